@@ -3,10 +3,14 @@
 import glob, json, os, re
 ROOT = os.path.dirname(os.path.dirname(os.path.abspath(__file__)))
 rows = []
+audit = []
 for p in sorted(glob.glob(os.path.join(ROOT, "seeded", "*", "meta.json"))):
     m = json.load(open(p))
     c = m.get("confirmed_by_us", {})
     ident = os.path.basename(os.path.dirname(p))
+    if "-audit-" in ident:
+        audit.append(ident)
+        continue
     confirmed = bool(c.get("suite_passes_with_change") and c.get("demo_fails_with_change") and c.get("demo_passes_without_change"))
     checks = c.get("checks", {})
     verdicts = []
@@ -24,6 +28,8 @@ for p in sorted(glob.glob(os.path.join(ROOT, "seeded", "*", "meta.json"))):
 table = ["| id | change | needs | confirmed (suite passes, demo fails/passes) | quick check verdict |", "|---|---|---|---|---|"] + rows
 caught = sum(1 for r in rows if "VIOLATION" in r)
 text = "\n".join(table) + "\n\n%d seeded changes recorded, %d reported as VIOLATION by the quick tier of the targeted check.\n" % (len(rows), caught)
+if audit:
+    text += "\nFurther %d changes (`seeded/*-audit-*`) were written during the coverage audits of the checks (by agents that could read /verif, to probe suspected gaps; no demonstration tests, package tests pass with each): they are regression inputs of `bin/seeded_regress`, whose last result is `seeded/REGRESSION.md`.\n" % len(audit)
 d = open(os.path.join(ROOT, "DESIGN.md"), encoding="utf-8").read()
 i = d.index("## Appendix S. Seeded changes")
 d = d[:i] + "## Appendix S. Seeded changes\n\nEach change was produced by a sub-agent that saw only the property text and a scratch worktree of /repo; it compiles, passes the whole existing suite, and comes with a demonstration test that fails with the change and passes without it (re-run by `bin/keep_seeded.py`). Kept under `/verif/seeded/<id>/` (patch.diff, demo, meta.json with what was run). Where a change was first missed, the generator/oracle was strengthened (see the notes in meta.json and §11) and the change re-run.\n\n" + text
